@@ -159,7 +159,7 @@ func (p *forestPrinter) node(n *yaml.Node) {
 		a |= 1 << 10
 	}
 	if n.Style&yaml.DoubleQuotedStyle != 0 {
-		a |= 1 << 11
+		a |= 1 << 13
 	}
 	a |= nodeNullDecBit(n)
 	a |= len(n.Anchor) << 16
